@@ -26,8 +26,11 @@ LibObsOK(o, T2) ==
           ELSE IF o.global THEN r = <<"err", "TagNotFoundError">>
           ELSE r \in {<<"err", "AttributeError">>, <<"err", "TagNotFoundError">>}
 
-ObsOK(obs, T2) == /\ {obs[i].lib : i \in 1..Len(obs)} = DOMAIN T2
-                  /\ \A i \in 1..Len(obs) : LibObsOK(obs[i], T2)
+\* A "cold" trace observes a library only from its first add_tag on (the driver calls nothing else on it before): the
+\* observed libraries are then a subset of the existing ones; otherwise every library is observed after every event.
+ObsOK(obs, T2, cold) == /\ IF cold THEN {obs[i].lib : i \in 1..Len(obs)} \subseteq DOMAIN T2
+                                   ELSE {obs[i].lib : i \in 1..Len(obs)} = DOMAIN T2
+                        /\ \A i \in 1..Len(obs) : LibObsOK(obs[i], T2)
 
 TrNewLib == /\ Ev.op = "new_lib"
             /\ Ev.lib \notin DOMAIN tags
@@ -42,7 +45,7 @@ TrAdd == /\ Ev.op = "add_tag" /\ Ev.lib \in DOMAIN tags
 TraceInit == tags = << >> /\ broken = {} /\ tid \in 1..Len(Traces) /\ l = 1 /\ dev = {}
 TraceNext == /\ l <= Len(Traces[tid]) /\ l' = l + 1 /\ UNCHANGED <<tid, dev>>
              /\ (TrNewLib \/ TrAdd)
-             /\ ObsOK(Ev.obs, tags')
+             /\ ObsOK(Ev.obs, tags', Ev.cold)
 TraceSpec == TraceInit /\ [][TraceNext]_tvars
 
 Accepted == (l = Len(Traces[tid]) + 1) => PrintT(<<"ACCEPT", tid, dev>>)
